@@ -1,0 +1,30 @@
+//! Verification-only scheduling points (`cfg(folo_verif)`), used by the model-checking harnesses
+//! in `/verif`. With the cfg off this module does not exist and no call site is compiled.
+//!
+//! A harness installs a plain function pointer of its controlled scheduler. `point` marks a place
+//! where the calling thread may be descheduled (always immediately *before* a lock acquisition or
+//! a reference-count test, never inside a critical section). Without installed hooks `point` is a
+//! no-op.
+
+#![allow(missing_docs, missing_debug_implementations, unreachable_pub, clippy::exhaustive_structs, reason = "verification-only")]
+
+use std::sync::OnceLock;
+
+#[derive(Clone, Copy)]
+pub struct Hooks {
+    pub point: fn(&'static str),
+}
+
+static HOOKS: OnceLock<Hooks> = OnceLock::new();
+
+/// Installs the hooks; the first installation wins for the lifetime of the process.
+pub fn install(hooks: Hooks) {
+    let _ = HOOKS.set(hooks);
+}
+
+#[inline]
+pub(crate) fn point(label: &'static str) {
+    if let Some(h) = HOOKS.get() {
+        (h.point)(label);
+    }
+}
